@@ -179,7 +179,7 @@ def nested_spans(text):
 
     out = []
     try:
-        tree = ast.parse(text)
+        tree = ast.parse(text.lstrip("\ufeff"))  # (a byte order mark is not part of the code)
     except SyntaxError:
         return out
 
